@@ -657,7 +657,9 @@ def suite_curves(exe, tier, seed):
                 nontrivial += 1
                 if (rc, findings_of(out)) != canon[curve]:
                     add(f"name:{name}", {"curve": name}, f"--curve {name} does not behave as --curve {curve} (exit {rc})")
-        for name in ["bn-254", "bn 254", "bn2540", "bls12-381", "bls12381", "bls12_3810", "goldilock", "goldilockss", "secp256k1", "", "BN254 "]:
+        for name in ["bn-254", "bn 254", "bn2540", "bls12-381", "bls12381", "bls12_3810", "goldilock", "goldilockss", "secp256k1", "", "BN254 ",
+                     # characters whose Unicode upper-case form is an ASCII letter (long s, dotless i)
+                     "goldilock\u017f", "gold\u0131locks", "bl\u017f12_381", "GOLDILOCK\u017f"]:
             rc, out, err = run_cli(exe, ["--curve", name, os.path.join(d, "table.circom")], d)
             evals += 1
             nontrivial += 1
@@ -667,7 +669,7 @@ def suite_curves(exe, tier, seed):
         shutil.rmtree(d, ignore_errors=True)
     return {"unit": "e2e-curves", "evaluations": evals, "distinct_nontrivial": nontrivial, "exhaustive": True,
             "rule": "the real CLI: (a) every template of the documented table (Circomlib spelling) and near-miss names instantiated under each curve: flagged as BN254-specific exactly when the table marks the pair; (b) Num2Bits(n)/Bits2Num(n) under the default curve: flagged unless n is a constant < 254; (c) LessThan inputs range-checked by Num2Bits(k) under each curve: accepted iff k < bits(p) - 1; (d) curve names in any case behave as the canonical name, other strings are rejected",
-            "bound": ("n, k in 0..300" if tier == "thorough" else "n, k at and around the thresholds (0, 1, 63..65, 252..256, bits-3..bits+1, 300)") + "; 26 table rows + near misses x 3 curves; 9 accepted and 11 rejected curve spellings; plus non-constant sizes",
+            "bound": ("n, k in 0..300" if tier == "thorough" else "n, k at and around the thresholds (0, 1, 63..65, 252..256, bits-3..bits+1, 300)") + "; 26 table rows + near misses x 3 curves; 9 accepted and 15 rejected curve spellings (near misses and non-ASCII look-alikes); plus non-constant sizes",
             "samples": samples, "violations": viol}
 
 
@@ -758,6 +760,13 @@ def suite_includes(exe, tier, seed):
                   dict(reachable=["a.circom", "b.circom"], must_error=("nowhere.circom", "b.circom:2"))))
     cases.append(("unresolved", {"a.circom": PRAGMA + "\n" + 'include "nowhere.circom";\n' + tpl("A") + main_a}, None, ["a.circom"],
                   dict(reachable=["a.circom"], must_error=("nowhere.circom", "a.circom:3"))))
+    # an include that names a directory is not resolved by it: it is looked up in the libraries, and reported at the include otherwise
+    cases.append(("include-names-a-directory", {"a.circom": PRAGMA + 'include "sub";\n' + tpl("A") + main_a, "sub/keep.circom": PRAGMA}, None, ["a.circom"],
+                  dict(reachable=["a.circom"], must_error=("sub", "a.circom:2"))))
+    cases.append(("include-names-the-current-directory", {"a.circom": PRAGMA + 'include ".";\n' + tpl("A") + main_a}, None, ["a.circom"],
+                  dict(reachable=["a.circom"], must_error=(".", "a.circom:2"))))
+    cases.append(("directory-shadows-library-file", {"a.circom": A(["u.circom"]) + tpl("A") + main_a, "u.circom/keep.txt": "", "lib/u.circom": PRAGMA + tpl("U", True)}, None, ["-L", "lib", "a.circom"],
+                  dict(reachable=["a.circom", "lib/u.circom"], analyzed={"A"}, findings_in=["a.circom"])))
     for (name, files, links, args, exp) in cases:
         d = project(files, links)
         try:
@@ -805,7 +814,7 @@ def suite_includes(exe, tier, seed):
     return {"unit": "e2e-includes", "evaluations": evals, "distinct_nontrivial": nontrivial, "exhaustive": False,
             "rule": "the real CLI under strace on small multi-file projects: it terminates with exit 0/1; every reachable file is opened exactly once whatever paths or spellings lead to it; a shadowed file is not opened; only templates of the files named on the command line are analyzed and only those files carry findings; an unresolvable include is an error located at the include statement",
             "strace_available": strace_seen,
-            "bound": "20 include graphs (5 more on library files answering only single-component includes, library sub-paths, an unresolvable include in a file that is both included and named): chain, diamond, cycle, self-include, ./ and ../ spellings, resolution relative to the including file, -L library, relative-before-library, a library file that is also named, a library file reached by two routes, symlink, both files named (either order), a file named twice and included, unresolved include",
+            "bound": "23 include graphs (5 more on library files answering only single-component includes, library sub-paths, an unresolvable include in a file that is both included and named): chain, diamond, cycle, self-include, ./ and ../ spellings, resolution relative to the including file, -L library, relative-before-library, a library file that is also named, a library file reached by two routes, symlink, both files named (either order), a file named twice and included, unresolved include",
             "samples": samples, "violations": viol}
 
 
@@ -1186,11 +1195,39 @@ def suite_positions(exe, tier, seed):
                         viol.append({"unit": "e2e", "fn": "parse_file / report locations", "obligation": f"e2e|positions|kinds:{code}", "props": ["C04"],
                                      "input": {"case": vname, "code": code, "source": text[:1500]},
                                      "what": f"kinds/{vname}: no {code} finding underlines `{want}`; the labels of {code} underline {sorted(got[code])}", "replay": "python3 run/e2e.py positions quick 0"})
+        # ---- parse errors: the label is where the text stops making sense
+        base = "pragma circom 2.0.0;\ntemplate Main() {\n  signal input in; signal output out;\n  out <== in;\n"
+        for (ename, text, want_line, want_under) in [
+                ("eof-inside-template", base, (5, 4), None),                                  # the file ends before the closing brace
+                ("eof-inside-template-no-newline", base.rstrip("\n"), (4,), None),
+                ("eof-after-multibyte-comment", base + "  // \u00e9\u00e9\n", (6, 5, 4), None),    # after the last token or at the end
+                ("unterminated-comment", base + "}\n    /* never closed\n", (6,), "/*"),
+                ("unterminated-comment-after-multibyte", base + "}\n/* \u00e9 */ /* never closed", (6,), "/*"),
+                ("unterminated-comment-at-eof", base + "}\n/*", (6,), "/*")]:
+            path = os.path.join(d, "e.circom")
+            open(path, "w", newline="").write(text)
+            rc, out, err = run_cli(exe, ["-v", path], d)
+            evals += 1; nontrivial += 1
+            errs = [(c, ln, t) for (c, ln, t) in coded_findings(out) if c.startswith("P")]
+            what = None
+            if rc is None or "panicked" in err or rc not in (0, 1):
+                what = f"the tool aborted or hung (exit {rc})"
+            elif not errs:
+                what = "no parse error is displayed"
+            elif errs[0][1] not in want_line:
+                what = f"the parse error is located on line {errs[0][1]}; the text stops making sense on line {want_line[0]}"
+            elif want_under is not None:
+                und = [u for u in underlined_snippets(out) if u[0].startswith("P")]
+                if not und or und[0][2] != want_under:
+                    what = f"the label underlines `{und[0][2] if und else ''}`, not the `{want_under}` that opens the comment"
+            if what and len(viol) < 20:
+                viol.append({"unit": "e2e", "fn": "parse_file / report locations", "obligation": f"e2e|positions|parse-error:{ename}", "props": ["C04"],
+                             "input": {"case": ename, "source": text}, "what": f"parse-error/{ename}: {what}", "replay": "python3 run/e2e.py positions quick 0"})
     finally:
         shutil.rmtree(d, ignore_errors=True)
     return {"unit": "e2e-positions", "evaluations": evals, "distinct_nontrivial": nontrivial, "exhaustive": False,
             "rule": "the real CLI on a template whose `out <-- in * in;` statement is preceded by text that shifts byte offsets (multi-byte characters in comments and strings, tabs, CRLF, long lines, a byte order mark): the label of the finding about that statement underlines exactly the statement, on its line, in the terminal output and in SARIF; a file the tool cannot tokenise must be rejected with a parse error rather than analysed with shifted positions; on a fixture with findings of 11 kinds (shadowing, unused parameter, dead assignment, unused variable, constant condition, both `<--` findings, divisor, intermediate signal, Num2Bits instantiation, unconstrained signal) the label of each finding underlines exactly the source text of the construct it is about",
-            "bound": "12 placements of one statement; one fixture with 16 findings of 11 kinds (three of them infix expressions that begin or end with a parenthesised operand) in 4 renderings (plain, multi-byte comment first, CRLF, tabs)", "samples": samples, "violations": viol}
+            "bound": "12 placements of one statement; one fixture with 16 findings of 11 kinds (three of them infix expressions that begin or end with a parenthesised operand) in 4 renderings (plain, multi-byte comment first, CRLF, tabs); 6 truncated files (end of file inside a template, unterminated comments): the error is on the last line / underlines the `/*`", "samples": samples, "violations": viol}
 
 
 def sigassign_program(rng, n_stmts):
@@ -1865,6 +1902,22 @@ def suite_determinism(exe, tier, seed):
             rest = Counter({k: v for k, v in a5.items() if not any(p and p[0] in DET_EXTRA for p in k[3])})
             if rest != a6:
                 add("unrelated-removed", {"difference": diff(rest, a6)}, f"removing the unreferenced template `Unrelated` changed the findings of the others: {diff(rest, a6)}")
+        # (5) a name defined both in the named file and in a file it includes: the same findings on every run (the
+        # definition of the named file is the one that is analysed), with and without a main component
+        for (pname, tail) in (("clash-with-main", "component main = T();\n"), ("clash-without-main", "")):
+            open(os.path.join(d, "cl_lib.circom"), "w").write("pragma circom 2.0.0;\ntemplate T() { signal input a; signal output b; b <== a; }\n")
+            open(os.path.join(d, "cl_user.circom"), "w").write('pragma circom 2.0.0;\ninclude "cl_lib.circom";\ntemplate T() { signal input a; signal output b; b <-- a * a; }\n' + tail)
+            seen = []
+            for k in range(8 if tier == "quick" else 30):
+                rc, out, err = run_cli(exe, ["-v", "cl_user.circom"], d)
+                evals += 1; nontrivial += 1
+                seen.append((rc, tuple(sorted((c, ln) for (c, ln, _) in coded_findings(out)))))
+            if len(set(seen)) > 1:
+                kinds = sorted(set(seen), key=str)
+                add(f"duplicate-name:{pname}", {"runs": len(seen), "outcomes": [str(k)[:300] for k in kinds[:3]]},
+                    f"{pname}: `circomspect cl_user.circom` (template T defined in cl_user.circom and in the included cl_lib.circom) displayed {len(kinds)} different sets of findings in {len(seen)} runs, e.g. {str(kinds[0])[:200]} and {str(kinds[1])[:200]}")
+            elif not any(c == "CS0013" or c == "CS0005" for (c, _) in seen[0][1]):
+                add(f"duplicate-name:{pname}", {"outcome": str(seen[0])[:300]}, f"{pname}: the template T of the named file (with a `<--`) was not analysed: {str(seen[0])[:300]}")
     except StopIteration:
         pass
     finally:
@@ -1990,6 +2043,14 @@ def suite_failures(exe, tier, seed):
         for (case, extra) in (("template", "template Sub() { signal input a; signal output c; c <== a; }\n"), ("function", "function h(a) { return a; }\nfunction h(a) { return a + 1; }\n")):
             f = write("dupdef.circom", FAIL_CLEAN + extra + FAIL_MAIN)
             expect_failure("duplicate-definition", case, [f], f"two {case}s with the same name")
+        # the same without a main component (a library), in one file and across two named files
+        for (case, extra) in (("template-no-main", "template Sub() { signal input a; signal output c; c <-- a; }\n"), ("function-no-main", "function h(a) { return a; }\nfunction h(a) { return a + 1; }\n")):
+            f = write("dupnomain.circom", FAIL_CLEAN + extra)
+            expect_failure("duplicate-definition", case, [f], f"two definitions with the same name in a file without a main component")
+        f1 = write("dupa.circom", FAIL_CLEAN)
+        f2 = write("dupb.circom", "pragma circom 2.0.0;\ntemplate Sub() { signal input a; signal output c; c <-- a; }\n")
+        expect_failure("duplicate-definition", "two-named-files-no-main", [f1, f2], "two named files without a main component define the same template")
+        expect_failure("duplicate-definition", "two-named-files-no-main-other-order", [f2, f1], "two named files without a main component define the same template")
         # ---- G: several main components
         m2 = write("main2.circom", "pragma circom 2.0.0;\ntemplate Other() { signal input i; signal output o; o <== i; }\ncomponent main = Other();\n")
         expect_failure("multiple-main", "two-files", [clean, m2], "two files with a main component each")
